@@ -96,6 +96,17 @@ def invoke(fn, names_, args, environment, pos):
     except CklRuntimeError as e:
         e.stacktrace.append(getFuncallString(fn, args_) + " " + str(pos))
         raise
+    except CklSyntaxError:
+        raise
+    except Exception as e:
+        # a failure of the host inside a function (wrong argument kind,
+        # index out of range, conversion failure, ...) is an error of the
+        # program: report it as a runtime error that catch can intercept
+        raise CklRuntimeError(
+            ValueString("ERROR"),
+            f"{fn.name}: {type(e).__name__}: {e}",
+            pos,
+        )
 
 
 class NodeAnd:
